@@ -245,10 +245,8 @@ func resolveSched(c *an.Ctx, rule string) *sched {
 			}
 		}
 	})
-	if s.gateCall == nil && s.gate != s.launchFn {
-		c.Und(rule, "scheduler:gate", s.launch.Pos(), "gate %s is not called from the launch function %s", an.Short(s.gate), an.Short(s.launchFn))
-		return s
-	}
+	// the gate may be called from a helper: rules that need the call site in the launch
+	// function report that themselves
 	// isDone: bool function of the scheduler package called in the outer loop header
 	s.ok = true
 	return s
@@ -324,4 +322,39 @@ func isStatusField(v ssa.Value) bool {
 	}
 	st := an.Deref(fa.X.Type()).Underlying().(*types.Struct)
 	return st.Field(fa.Field).Name() == "Status"
+}
+
+// findRunStage finds, by role, the scheduler's runner caller: the function of
+// pkg/scheduler that invokes Runner.Run.
+func findRunStage(p *an.Prog) *ssa.Function {
+	var out *ssa.Function
+	for _, fn := range p.Funcs {
+		if !inPkgs("pkg/scheduler")(fn) {
+			continue
+		}
+		if len(an.CallsIn(fn, fnRunnerRun)) > 0 {
+			if out != nil {
+				return nil
+			}
+			out = fn
+		}
+	}
+	return out
+}
+
+// findErrorRecorders lists the functions that store into ExecutionGraph.error.
+func findErrorRecorders(p *an.Prog) []*ssa.Function {
+	var out []*ssa.Function
+	for _, fn := range p.Funcs {
+		found := false
+		an.EachInstr(fn, func(in ssa.Instruction) {
+			if st, ok := in.(*ssa.Store); ok && isGraphErrorAddr(st.Addr) {
+				found = true
+			}
+		})
+		if found {
+			out = append(out, fn)
+		}
+	}
+	return out
 }
